@@ -693,6 +693,12 @@ hwloc_backend_synthetic_init(struct hwloc_synthetic_backend_data_s *data,
       goto error;
     }
 
+    if (item > ULONG_MAX / totalarity) {
+      if (verbose)
+	fprintf(stderr,"Too many objects in synthetic string at '%s'\n", pos);
+      errno = EINVAL;
+      goto error;
+    }
     totalarity *= item;
     data->level[count].totalwidth = totalarity;
     data->level[count].indexes.string = NULL;
